@@ -12,7 +12,7 @@ import (
 // Op is one step of an edit sequence. Indices are taken modulo the number
 // of values / contexts that exist when the step runs.
 type Op struct {
-	Kind string  `json:"op"`            // set | setzero | delete | store | load | without | scribble
+	Kind string  `json:"op"`            // set | setzero | delete | store | load | without | scribble | zero
 	On   int     `json:"on"`            // value operated on
 	Ctx  int     `json:"ctx"`           // store / without: parent context (-1 = Background); load: context read
 	M    AMember `json:"m"`             // set: the member
@@ -91,6 +91,10 @@ func genC(t *rapid.T) CaseC {
 		"without": func(t *rapid.T) {
 			c.Ops = append(c.Ops, Op{Kind: "without", Ctx: ctx(t)})
 			nCtxs++
+		},
+		"zero": func(t *rapid.T) { // the zero-value Baggage{} becomes a value like any other
+			c.Ops = append(c.Ops, Op{Kind: "zero"})
+			nVals++
 		},
 		"scribble": func(t *rapid.T) {
 			c.Ops = append(c.Ops, Op{Kind: "scribble", On: val(t)})
@@ -233,6 +237,14 @@ func runC(c CaseC) ([]vk.Violation, vk.Info) {
 				j := idx(op.Ctx, len(ctxs))
 				values, models, shared = append(values, baggage.FromContext(ctxs[j])), append(models, ctxModels[j]), append(shared, true)
 			}
+		case "zero":
+			var z baggage.Baggage
+			zp, zerr := baggage.Parse(z.String())
+			if z.Len() != 0 || len(z.Members()) != 0 || zerr != nil || zp.Len() != 0 {
+				bad("zero_value_not_empty", "Baggage{}: Len() = %d, %d Members(), String() = %q parses to %d members (%v)", z.Len(), len(z.Members()), z.String(), zp.Len(), zerr)
+			}
+			values, models, shared = append(values, z), append(models, model{}), append(shared, false)
+			info.Class("zero_value_baggage")
 		case "without":
 			ctxs = append(ctxs, baggage.ContextWithoutBaggage(parentOf(op.Ctx)))
 			ctxModels = append(ctxModels, model{})
